@@ -1883,6 +1883,10 @@ struct Explorer {
   /// Inputs of a statement in the graph ninja can know at scan time: declared (not validations),
   /// dyndep-provided when the dyndep file exists, discovered through an existing depfile or a
   /// valid deps-log record.  `discovered` receives the subset known only through discovery.
+  /// statements whose command completed in an earlier manifest cycle of the invocation being judged (the build that
+  /// regenerates build.ninja): what they reported then is known to the build proper
+  const set<string>* reported_in_regeneration_ = nullptr;
+
   vector<string> EffectiveInputs(const Variant& v, const Stmt& s, const vfs::Disk& d, const vfs::Disk* later,
                                  set<string>* discovered) {
     vector<string> in = s.AllDeclaredInputs();
@@ -1915,6 +1919,8 @@ struct Explorer {
         }
       }
     }
+    if (reported_in_regeneration_ && reported_in_regeneration_->count(s.id) && (!s.deps.empty() || !s.depfile.empty()))
+      disc = s.spec.hidden;
     for (auto& x : disc)
       if (find(in.begin(), in.end(), x) == in.end()) { in.push_back(x); if (discovered) discovered->insert(s.id + "\x01" + x); }
     return in;
@@ -1924,6 +1930,17 @@ struct Explorer {
                   vector<Violation>* out) {
     const Variant* v = VariantOf(sc, before);
     if (!v || r.crashed) return;
+    set<string> regen_ran;
+    {
+      int last_cycle = 0;
+      for (auto& c : r.cmds) last_cycle = max(last_cycle, c.cycle);
+      for (auto& c : r.cmds) if (c.cycle < last_cycle && c.finished && c.status == 0) regen_ran.insert(c.spec.id());
+      // (a regeneration that left the manifest untouched is followed by the build proper without another load)
+      if (v->producer.count("build.ninja"))
+        for (auto& c : r.cmds) if (c.spec.id() == "build.ninja" && c.finished && c.status == 0) regen_ran.insert(c.spec.id());
+    }
+    struct Reset { const set<string>** p; ~Reset() { *p = nullptr; } } reset{&reported_in_regeneration_};
+    reported_in_regeneration_ = &regen_ran;
     if (r.hang || r.horizon) {
       Violation x; x.prop = "C17"; x.clause = "hang"; x.detail = "ninja does not terminate";
       out->push_back(x);
@@ -1931,6 +1948,9 @@ struct Explorer {
     }
     vector<string> roots = TargetsOf(op, *v);
     if (roots.empty()) return;
+    // the manifest is brought up to date before anything else; when that build ran a command, it was planned before
+    // the command's report existed, and only the requested targets are scanned with it
+    if (v->producer.count("build.ninja") && regen_ran.empty()) roots.push_back("build.ninja");
     // closure + cycle search (iterative DFS with colours) over the effective graph
     set<string> discovered;
     map<string, vector<string>> adj;
@@ -2040,6 +2060,9 @@ struct Explorer {
       for (int si : cyc_stmts) {
         const Stmt& s = v->stmts[si];
         if (s.phony || (s.deps.empty() && s.depfile.empty())) continue;
+        // (the manifest regeneration is a build of its own: whatever made that statement dirty was dealt with there,
+        // the build proper starts from a fresh scan that can load what the command just reported)
+        if (regen_ran.count(s.id)) continue;
         const vfs::File* o = before.Get(s.id);
         if (!o || !bl.entries.count(s.id)) dirty_own = true;
         for (auto* l : {&s.ex, &s.im})
@@ -2072,6 +2095,9 @@ struct Explorer {
       }
       x.facts.set("cycle_runs_through_an_output_supplied_by_dyndep_information", via_dyn_out);
       x.facts.set("ninja_stopped_with_an_error", r.exit_code != 0);
+      // (an undiagnosed cycle ends in success or in 'stuck'; any other error message is some other failure)
+      x.facts.set("ninja_stopped_with_an_error_other_than_stuck",
+                  r.exit_code != 0 && r.out.find("stuck [this is a bug]") == string::npos);
       x.facts.set("dyndep_file_produced_in_this_build", dyndep_load_event >= 0);
       x.facts.set("a_cycle_statement_was_finished_or_up_to_date_when_the_dyndep_file_was_loaded", early);
       out->push_back(x);
@@ -2119,6 +2145,8 @@ struct Explorer {
       if (p != v->producer.end() && cyc_stmts.count(p->second)) {
         // started before the cycle-closing dyndep information existed: ninja could not know
         if (started_before_dyndep_load(c.spec.id())) continue;
+        // ... or it is the manifest regeneration whose own report closes the cycle
+        if (regen_ran.count(c.spec.id())) continue;
         Violation x; x.prop = "C17"; x.clause = "command-on-cycle-ran";
         x.detail = "'" + c.spec.id() + "' lies on the dependency cycle but its command was started";
         x.facts.set("stmt", c.spec.id());
